@@ -596,6 +596,25 @@ Proof. cbn zeta. split; [reflexivity|]. split; [eexists; split; [vm_compute; ref
       apply no_underflow_ge1; rewrite Rabs_pos_eq; lra.
   - cbn [rows cols Nat.mul Nat.add INR]. pose proof u64_small. lra. Qed.
 
+(* what the code does with NaN, by computation at the float instance (and the same on the real code: bit-exact tie):
+   f64::max ignores a NaN operand and the running maximum starts at 0.0, so norm_1 / norm_inf skip a column / row whose sum is
+   NaN and norm_max skips NaN entries; norm_frob propagates it.  The real-number laws "zero iff all entries zero" and
+   norm_max <= norm_inf therefore fail at binary64 on matrices containing NaN (they are theorems about finite data). *)
+Theorem matnorm_float_nan_ignored : (let m1 := @mkM AF [Coq.Floats.PrimFloat.nan] 1 1 in
+  let m2 := @mkM AF [Coq.Floats.PrimFloat.nan; 1%float] 1 2 in
+  Proofs.Matrix.wf m1 /\ Proofs.Matrix.wf m2 /\ Coq.Floats.PrimFloat.is_nan (entry (A:=AF) m1 0 0) = true /\
+  mnorm_1 (S:=SAF) m1 = Ok 0%float /\ mnorm_inf (S:=SAF) m1 = Ok 0%float /\ mnorm_max (S:=SAF) m1 = Ok 0%float /\
+  (exists x, mnorm_frob (S:=SAF) m1 = Ok x /\ Coq.Floats.PrimFloat.is_nan x = true) /\
+  mnorm_1 (S:=SAF) m2 = Ok 1%float /\ mnorm_inf (S:=SAF) m2 = Ok 0%float /\ mnorm_max (S:=SAF) m2 = Ok 1%float)%R.
+Proof. exact MatNormLawsFloat.matnorm_float_nan_ignored_lemma. Qed.
+Check matnorm_float_nan_ignored : (let m1 := @mkM AF [Coq.Floats.PrimFloat.nan] 1 1 in
+  let m2 := @mkM AF [Coq.Floats.PrimFloat.nan; 1%float] 1 2 in
+  Proofs.Matrix.wf m1 /\ Proofs.Matrix.wf m2 /\ Coq.Floats.PrimFloat.is_nan (entry (A:=AF) m1 0 0) = true /\
+  mnorm_1 (S:=SAF) m1 = Ok 0%float /\ mnorm_inf (S:=SAF) m1 = Ok 0%float /\ mnorm_max (S:=SAF) m1 = Ok 0%float /\
+  (exists x, mnorm_frob (S:=SAF) m1 = Ok x /\ Coq.Floats.PrimFloat.is_nan x = true) /\
+  mnorm_1 (S:=SAF) m2 = Ok 1%float /\ mnorm_inf (S:=SAF) m2 = Ok 0%float /\ mnorm_max (S:=SAF) m2 = Ok 1%float)%R.
+Print Assumptions matnorm_float_nan_ignored.
+
 (* ---------- structure: matrix norms through the vector norms, for EVERY arithmetic (package matnorm) ----------
    no ring / order / field law is used, so these hold bit for bit at the float instance: the column sum maximised by
    norm_1 is the vector 1-norm of get_col(j), the row sum of norm_inf that of get_row(i); norm_frob is the vector 2-norm
